@@ -246,3 +246,36 @@ Definition law_occw_split : Prop := forall r u v w o,
   Z.b2z (negb (ordered_ccw point sign r u w o)) =
   Z.b2z (negb (ordered_ccw point sign r u v o)) + Z.b2z (negb (ordered_ccw point sign r v w o)).
 End InterfaceLaws.
+
+(** * Further interface laws (four rays around a vertex) *)
+Section InterfaceLaws2.
+Variable point : Type.
+Variable peq : point -> point -> bool.
+Variable sign : point -> point -> point -> Z.
+Variable refdir : point -> point.
+
+(** [law_occw_split] with the guard it really needs: the start ray r is not the vertex itself.
+    (Without the guard the law is false of RobustSign: Proofs/Link_C02_C03.v,
+    [occw_split_unguarded_refuted].) *)
+Definition law_occw_split_ne : Prop := forall r u v w o,
+  peq r o = false ->
+  peq u o = false -> peq v o = false -> peq w o = false ->
+  peq u v = false -> peq v w = false -> peq u w = false ->
+  ordered_ccw point sign u v w o = true ->
+  Z.b2z (negb (ordered_ccw point sign r u w o)) =
+  Z.b2z (negb (ordered_ccw point sign r u v o)) + Z.b2z (negb (ordered_ccw point sign r v w o)).
+
+(** Point.referenceDir never returns the point itself *)
+Definition law_refdir_ne : Prop := forall o, peq (refdir o) o = false.
+
+(** three-term Grassmann-Pluecker sign condition on five pairwise different points: the
+    answers are those of a vector configuration in general position (C02 chirotope) *)
+Definition law_sign_gp : Prop := forall a b c d f,
+  peq a b = false -> peq a c = false -> peq a d = false -> peq a f = false ->
+  peq b c = false -> peq b d = false -> peq b f = false ->
+  peq c d = false -> peq c f = false -> peq d f = false ->
+  let t1 := sign a b c * sign a d f in
+  let t2 := - (sign a b d * sign a c f) in
+  let t3 := sign a b f * sign a c d in
+  ~ (0 < t1 /\ 0 < t2 /\ 0 < t3) /\ ~ (t1 < 0 /\ t2 < 0 /\ t3 < 0).
+End InterfaceLaws2.
